@@ -354,8 +354,12 @@ func c04Script(r *rand.Rand, id int) *sScript {
 		}
 		g.add("node-points", sOp{Kind: "np", Node: n, Points: g.batch(n, 3)})
 	}
-	// one large batch (230 points of distinct identity): it is still one batch, all or nothing
-	big := make([]sPoint, 230)
+	// one large batch (230 points of distinct identity, 600 in every second script): it is still one batch, all or nothing
+	nbig := 230
+	if id%2 == 1 {
+		nbig = 600
+	}
+	big := make([]sPoint, nbig)
 	for i := range big {
 		big[i] = sPoint{Type: "big", Key: fmt.Sprint(i), Time: g.tick(), VBits: math.Float64bits(float64(i)), Text: "x"}
 	}
